@@ -103,7 +103,7 @@ def opReasons (op : String) (sv : Val) (cs : List (Option Val)) : List String :=
      | .bool b => if !b && cs.length > 1 then ["multicand"] else []
      | .int i => if i == 0 && cs.length > 1 then ["multicand"] else []
      | _ => ["existsoperand"])
-  else ["extendedop"]
+  else ["ext:" ++ op]
 
 /-- reasons for a condition `c` under `key` -/
 def condReasons (c : Val) (cs : List (Option Val)) : List String :=
@@ -116,10 +116,10 @@ def condReasons (c : Val) (cs : List (Option Val)) : List String :=
           (match sv with
            | .doc [(op', sv')] =>
              if op'.startsWith "$" then
-               (if op' = "$not" then ["extendedop"] else opReasons op' sv' cs) ++
+               (if op' = "$not" then ["ext:$not"] else opReasons op' sv' cs) ++
                (if cs.isEmpty then ["deadend"] else [])
              else ["malformed"]
-           | _ => ["extendedop"])
+           | _ => ["ext:$not"])
         else opReasons op sv cs
       | _ => ["multiop"]
     else if hasDollarKey fs then ["malformed"]
